@@ -62,7 +62,7 @@ func methodEffects(p *Prog, fn *ssa.Function) (reads, writes map[string]string) 
 					continue
 				}
 				pkgrel := relPkg(fnPkgPath(callee))
-				name := callee.Name()
+				name := fnName(callee)
 				cn := strings.ToLower(name[:1]) + name[1:]
 				q, err := p.StringConst(pkgrel, cn)
 				if err != nil {
